@@ -53,4 +53,14 @@ TEXTS = {
         "level_text": "Fault enumeration: for every generated history (96k quick / 2.5M thorough over 7 image kinds x 4 allocator flavours incl. pmr) the run is repeated once per allocation and element-construction event with exactly that event failing, so every fault point of every explored history is covered. Invariants after each command: ledger (matching allocator, size, no double free), ownership of exactly one live block per non-empty image, element constructed/destroyed exactly once (image<Counted>), deep-value model, requested dimensions and row alignment after recreate, storage reuse; at the end nothing is live.",
         "level_note": "Checking allocators and the Counted element are the harness's own; malloc under ASan backs them. Histories are bounded to 8 (14) commands over 4 slots.",
     },
+    "C05": {
+        "technique": "every ordered pair of pixel models per colour-space group x seeded channel values, against a name-based (get_color) reference, raw memory order and visit counters",
+        "level_text": "Exploration: 120 ordered (source, destination) model pairs in 11 groups (values, planar references, packed pixels, bit-aligned references at non-byte-aligned positions; rgb/bgr, rgba/bgra/argb/abgr, cmyk, devicen<2,5>; 8/16-bit, signed, float, 5-6-5 and 8-8-8-8 packed) x 3k (60k thorough) seeded value sets each: assignment, construction, ==/!=, single-colour perturbation, semantic_at_c vs at_c via the layout mapping, operator[], memory order, and the static_* algorithms with counting functors.",
+        "level_note": "The oracle only uses get_color by colour tag and raw bytes; it never uses the mapping metafunctions under test.",
+    },
+    "C08": {
+        "technique": "complete enumeration of 16-bit packed pixel contents, of (first bit, width) pairs of channel references and of iterator moves; seeded random backgrounds for bit-aligned references at every bit offset; bit-level model buffer as oracle",
+        "level_text": "Exploration, exhaustive where stated: all 2^16 contents x channels x values of four 16-bit packed pixel types; every (first bit, width) static and dynamic channel reference in 8/16/32/64-bit carriers; 12 bit-aligned pixel types (1..40 bits) x 9 operations x 20k (400k) seeded scenarios in guard-page memory of exactly the occupied bytes, compared bit-for-bit with a model; iterator +n/-n/distance/ordering for every (byte, bit offset) and n in [-48,48].",
+        "level_note": "The model buffer is maintained with plain shifts and masks on bytes, independent of GIL's carriers.",
+    },
 }
